@@ -360,6 +360,13 @@ class Explorer(object):
                 results.append(PathResult(list(self.trace), "unsupported", str(ex)))
             except RecursionError:
                 results.append(PathResult(list(self.trace), "unsupported", "recursion limit of the analyser"))
+            except (_Return, _Break, _Continue):
+                results.append(PathResult(list(self.trace), "unsupported", "control flow escaped the interpreter"))
+            except Exception as ex:      # a defect of the analyser is never a verdict
+                import traceback
+                tb = traceback.extract_tb(ex.__traceback__)[-1]
+                results.append(PathResult(list(self.trace), "unsupported",
+                                          "analyser error %s: %s (%s:%d)" % (type(ex).__name__, ex, tb.filename.split("/")[-1], tb.lineno)))
         return results
 
 
@@ -701,6 +708,8 @@ class Interp(object):
                     return fn.bind(inst) if inst is not None else fn
                 if kind == "expr":
                     return self.eval(v, Env(), _FuncCtx(ci.module, q))
+                if kind == "unpack":
+                    return self.iterate(self.eval(v[0], Env(), _FuncCtx(ci.module, q)))[v[1]]
         if inst is not None and inst.tag == "exc" and name in ("message", "args"):
             return inst.attrs.get("args", ())
         raise AbsRaise("AttributeError", ("%s has no attribute %s" % (qual, name),))
